@@ -118,8 +118,8 @@ def make_server(log, auth_verdict=0, tls_immediately=False):
                 ok = False
             log.append({'t': 'cb', 'name': 'AUTH', 'evil': False, 'enc': bool(self.session.security),
                         'authcid': creds.authcid, 'secret_ok': bool(ok)})
-            if auth_verdict:
-                reply.code = str(auth_verdict)
+            if auth_verdict or creds.authcid == u'admin':       # 'admin' is the account of the broken-off earlier exchange
+                reply.code = str(auth_verdict or 535)
                 reply.message = '5.7.8 scripted'
 
     def handoff(env):
@@ -200,6 +200,7 @@ def b64(x):
 def auth_case(mech, shape, tls, state_kind, verdict):
     """one AUTH exchange; returns log with an 'auth' summary event"""
     log = []
+    state_kind0 = state_kind
     peer, g, state = make_server(log, auth_verdict=verdict, tls_immediately=False)
     peer.reply()
     if tls:
@@ -226,6 +227,21 @@ def auth_case(mech, shape, tls, state_kind, verdict):
                 r = peer.reply()
         if not (r and r[0] == 235):
             state_kind = 'ok'          # the application did not let the guest in: nothing to gate
+        del log[:]
+    if state_kind.startswith('ok_after_'):
+        # an earlier exchange in the same session was broken off (cancelled with '*', a line that is not base64) or refused by
+        # the application, with OTHER credentials: nothing of it may show in the exchange that follows
+        other_u, other_p = b64(b'admin'), b64(b'hunter2')
+        how = state_kind[len('ok_after_'):]
+        peer.send(b'AUTH LOGIN\r\n')
+        r = peer.reply()
+        if r and r[0] == 334:
+            peer.send(other_u + b'\r\n')
+            r = peer.reply()
+            if r and r[0] == 334:
+                peer.send({'cancel': b'*', 'badb64': b'!!!not*base64', 'wrong': other_p}[how] + b'\r\n')
+                r = peer.reply()
+        state_kind = 'ok'
         del log[:]
     if state_kind in ('after_auth', 'after_auth_ehlo'):
         peer.send(b'AUTH CRAM-MD5\r\n')
@@ -403,6 +419,10 @@ def main():
             jobs.append(('auth', mech, 'initial', tls, 'ok', 535))
             for st in ('pre_ehlo', 'in_trans', 'after_auth', 'after_auth_ehlo', 'after_auth_anon'):
                 jobs.append(('auth', mech, 'initial', tls, st, 0))
+            for st in ('ok_after_cancel', 'ok_after_badb64', 'ok_after_wrong'):
+                for shape in ('initial', 'challenge'):
+                    if tls or mech == b'CRAM-MD5':       # (plain-text mechanisms without TLS: known finding D27, judged above)
+                        jobs.append(('auth', mech, shape, tls, st, 0))
     for tls in (False, True):
         jobs.append(('auth', b'PLAIN', 'bare', tls, 'ok', 0))
         jobs.append(('auth', b'PLAIN', 'unknownmech', tls, 'ok', 0))
